@@ -915,5 +915,14 @@ theorem c10_shape_Overlay_newTreeNodeInstanceFromToken :
    ["newTreeNodeInstance", "instancesLock.Lock", "defer:instancesLock.Unlock", "if:o.closed",
      "tni.closeDispatch", "return:tni", "tok.ID", "return:tni"] := rfl
 
+theorem c10_shape_TreeNodeInstance_dispatchMsgReader :
+    Shapes.treenode_TreeNodeInstance_dispatchMsgReader =
+   ["msgDispatchQueueMutex.Lock", "msgDispatchQueueMutex.Unlock", "msgDispatchQueueMutex.Unlock",
+     "n.dispatchMsgToProtocol", "msgDispatchQueueMutex.Unlock", "recv:msgDispatchQueueWait"] := rfl
+
+theorem c10_shape_local_LocalManager_send :
+    Shapes.network_local_LocalManager_send =
+   ["lm.Lock", "defer:lm.Unlock", "send:incomingQueue"] := rfl
+
 
 end C10
